@@ -115,6 +115,9 @@ func ValidateResponse(ctx context.Context, input *ResponseValidationInput) error
 
 	// Read response's body.
 	body := input.Body
+	if body == nil {
+		body = http.NoBody
+	}
 
 	// Response would contain partial or empty input body
 	// after we begin reading.
